@@ -29,6 +29,11 @@ type World struct {
 	limit int
 
 	bigData bool
+
+	opNo      int
+	keptLists []keptList
+	keptTxs   []keptTx
+	onFinding func(key, desc string) // retention violations seen by the harness itself
 }
 
 func newWorld(pool service.TransactionPool) *World {
@@ -77,6 +82,7 @@ func (w *World) ResetAt(net string, h uint64, limit int) string {
 	common.LocalChainConfig.Proposal023Block = sc[3]
 	common.SetBlockHeight(h)
 	f := [4]bool{h >= sc[0], h >= sc[1], h >= sc[2], h >= sc[3]}
+	w.resetKept()
 	service.VerifPoolReset(w.pool, limit)
 	st, err := middleware.AccountDBManagerInstance.GetAccountDBByHash(common.Hash{})
 	if err != nil {
@@ -94,6 +100,7 @@ func (w *World) ResetAt(net string, h uint64, limit int) string {
 // Reset starts a new script; returns the op line.
 func (w *World) Reset(p016, p018, p021, p023 bool, limit int) string {
 	setFlags(p016, p018, p021, p023)
+	w.resetKept()
 	service.VerifPoolReset(w.pool, limit)
 	st, err := middleware.AccountDBManagerInstance.GetAccountDBByHash(common.Hash{})
 	if err != nil {
@@ -185,19 +192,102 @@ func (w *World) AddNil() string {
 	return fmt.Sprintf("other %v %v", ok, err)
 }
 
+// ---------------------------------------------------------------------------
+// retention of everything the pool hands out
+//
+// Every list the pool returns (PackForCast, GetReceived) and every transaction object a lookup returns is KEPT
+// as returned, next to the harness' own snapshot taken at that moment. After every later pool call all kept results
+// are read again and must still equal their snapshots: a returned batch belongs to the caller (the caster executes
+// it while the next cast already packs). When a kept result leaves the window the harness scribbles over it (the
+// caller is done with it; the chain sorts batches in place) — that must not reach the pool either, which the later
+// answers show. The oracle is the snapshot, never the pool.
+
+type keptList struct {
+	what  string
+	at    int // op counter when it was returned
+	live  []*types.Transaction
+	snap  []*types.Transaction
+	snapH []common.Hash
+}
+
+type keptTx struct {
+	what              string
+	at                int
+	live              *types.Transaction
+	hash              common.Hash
+	source            string
+	nonce, req        uint64
+}
+
+const keepWindow = 6
+
+func (w *World) keepList(what string, l []*types.Transaction) {
+	k := keptList{what: what, at: w.opNo, live: l, snap: append([]*types.Transaction{}, l...)}
+	for _, t := range l {
+		if t != nil {
+			k.snapH = append(k.snapH, t.Hash)
+		} else {
+			k.snapH = append(k.snapH, common.Hash{})
+		}
+	}
+	w.keptLists = append(w.keptLists, k)
+	if len(w.keptLists) > keepWindow {
+		old := w.keptLists[0]
+		w.keptLists = w.keptLists[1:]
+		for i := range old.live { // the caller is done with it
+			old.live[i] = nil
+		}
+	}
+}
+
+func (w *World) keepTx(what string, t *types.Transaction) {
+	if t == nil {
+		return
+	}
+	w.keptTxs = append(w.keptTxs, keptTx{what, w.opNo, t, t.Hash, t.Source, t.Nonce, t.RequestId})
+	if len(w.keptTxs) > keepWindow {
+		w.keptTxs = w.keptTxs[1:]
+	}
+}
+
+// CheckKept re-reads everything kept; returns a description of the first result that changed after it was returned.
+func (w *World) CheckKept(after string) string {
+	w.opNo++
+	for _, k := range w.keptLists {
+		if len(k.live) != len(k.snap) {
+			return fmt.Sprintf("%s returned at op %d had %d entries, has %d after %s", k.what, k.at, len(k.snap), len(k.live), after)
+		}
+		for i := range k.snap {
+			if k.live[i] != k.snap[i] || (k.live[i] != nil && k.live[i].Hash != k.snapH[i]) {
+				got := "nil"
+				if k.live[i] != nil {
+					got = k.live[i].Hash.String()
+				}
+				return fmt.Sprintf("%s returned at op %d: entry %d was %s and reads %s after %s (the returned slice aliases memory the pool keeps writing to)",
+					k.what, k.at, i, k.snapH[i].String(), got, after)
+			}
+		}
+	}
+	for _, k := range w.keptTxs {
+		t := k.live
+		if t.Hash != k.hash || t.Source != k.source || t.Nonce != k.nonce || t.RequestId != k.req {
+			return fmt.Sprintf("transaction returned by %s at op %d (%s) was modified after %s", k.what, k.at, k.hash.String(), after)
+		}
+	}
+	return ""
+}
+
+func (w *World) resetKept() { w.keptLists, w.keptTxs = nil, nil }
+
 func (w *World) Pack() []*types.Transaction {
-	return w.pool.PackForCast(forkHeight+1, w.state)
+	p := w.pool.PackForCast(forkHeight+1, w.state)
+	w.keepList("PackForCast batch", p)
+	return append([]*types.Transaction{}, p...)
 }
 
 func (w *World) PackAns() string {
 	p := w.Pack()
-	ans := strconv.Itoa(len(p)) + " " + w.tags(p)
-	// retention: the caller owns the returned slice (the chain sorts it in place); scribbling over it must
-	// not reach the pool — every later answer is still compared with the model
-	for i := range p {
-		p[i] = nil
-	}
-	return ans
+	return strconv.Itoa(len(p)) + " " + w.tags(p)
 }
 
 func (w *World) list(ids []int) []*types.Transaction {
@@ -253,6 +343,7 @@ func (w *World) Get(id int) string {
 		}
 		return fmt.Sprintf("other %v", err)
 	}
+	w.keepTx("GetTransaction", tx)
 	if pid, ok := w.ids[tx]; ok {
 		return "pending " + strconv.Itoa(pid)
 	}
@@ -376,11 +467,8 @@ func (w *World) Expire()          { service.VerifPoolGrowRing(w.pool) }
 
 func (w *World) Stat() string {
 	rec := w.pool.GetReceived()
-	ans := fmt.Sprintf("%d %v %d %s", w.pool.TxNum(), w.pool.IsFull(), w.pool.GetGateNonce(), w.tags(rec))
-	for i := range rec { // retention, as in PackAns
-		rec[i] = nil
-	}
-	return ans
+	w.keepList("GetReceived list", rec)
+	return fmt.Sprintf("%d %v %d %s", w.pool.TxNum(), w.pool.IsFull(), w.pool.GetGateNonce(), w.tags(rec))
 }
 
 func (w *World) Less(a, b int) string {
